@@ -19,8 +19,9 @@ _mod = [None]
 
 def statements_module():
     if _mod[0] is None:
-        d = tempfile.mkdtemp(prefix="mc-c27-")
-        atexit.register(shutil.rmtree, d, True)
+        from mc.common import scratch_dir
+        d = os.path.join(scratch_dir(), "c27-%d" % os.getpid())
+        os.makedirs(d, exist_ok=True)
         src = []
         for k, line in STMTS.items():
             src += ["def s_%s(o, o2):" % k, "  x = None", "  " + line, "  return x", ""]
